@@ -4,147 +4,253 @@ import Crem.Proofs.Runs
 
 Property theorems about the model of `scenario.Runner.runScenario` (`Crem/Model/Runs.lean`): `runs`
 workers, each annealing a clone of the configured annealer, started by the main goroutine through
-a buffered channel of capacity `bound` and joined through a WaitGroup; the state is `shared`
-(read-only, a constant) × per-worker local state `(priv i, cells (addr i))`; a schedule is ANY
-list of atomic events each enabled in turn (= every interleaving the channel and the WaitGroup
-admit), for every number of runs and every bound.
+a buffered channel of capacity `bound` and joined through a WaitGroup.  ALL workers act on ONE heap of
+aliasable cells (template annealer, input data, observer state on the shared notifier, the saver's
+decompression model, every clone's coolant / iteration counter / archive / model / data / output);
+what a worker does is an arbitrary heap transformer, so nothing in the semantics keeps one run out
+of another's cells.  A schedule is ANY list of atomic events each enabled in turn (= every
+interleaving the channel and the WaitGroup admit), for every number of runs and every bound.
 
-* `noninterference` — for EVERY schedule, each run's local state is the one its own steps
-  produce from its own fresh initial state, and a run that has completed is exactly the outcome
-  of executing it alone (`solo`): no other run's progress, result or failure shows in it.
-  Hypothesis `ClonePrivate`: no two clones (and no clone and the template) reach the same mutable
-  cell.  It is NOT a theorem about the Go code: it is established on the real objects on every
-  check (reflection walk over two `DeepClone()`s of the configured annealer, `multi-run` suite).
-* `fresh_start`, `fresh_start_anneal` — provided `ClonePrivate`, every run starts annealing from
-  (starting temperature, iteration 1, empty solution set, data loaded), whatever ran before or
-  beside it.  `shared_coolant_starts_cold` refutes it without the hypothesis (finding D4).
-* `counter_invariant`, `progress`, `schedule_bounded`, `all_finish`, `can_always_complete` — the
-  channel/WaitGroup bookkeeping: in-flight ≤ bound, spawned ≤ runs, WaitGroup counter = runs not
-  yet finished; no reachable state is stuck; every schedule is finite (explicit bound); a schedule
-  that cannot be extended has returned from `Run()` with all runs finished.  No fairness
-  assumption is needed: there is no infinite schedule, so every scheduler — fair or not — that
-  keeps scheduling enabled events completes all runs.
-* `failure_isolated` — with failures confined to the failing run (`isolate = true`, what the
-  property demands and what a `recover` in the run goroutine gives) one run's panic changes
-  nothing for the others and `Run()` still returns, reporting exactly the failed runs.
-  `today_all_finish_partial` is the statement that holds for bare goroutines (`isolate = false`,
-  the code before the D26 repair): only when no run fails; `bare_goroutine_panic_loses_siblings`
-  refutes the full statement.
+* `noninterference` — hypothesis `ClonePrivate cfg ft`: every run reads only `R i` and writes only
+  `W i` (semantically: `Respects`), `W i ∩ (R j ∪ W j) ⊆ locked` for `i ≠ j`, and no run reads a
+  lock-guarded cell outside the (atomic) section that wrote it.  Then for EVERY schedule each run is,
+  on its own cells, exactly where its own steps take it from the INITIAL heap, and a run that has
+  completed has the very outcome of executing it alone (`solo`): `failed` at the same site if it
+  panicked, `finished` with the same own cells (= the same output) otherwise.  The hypothesis is NOT
+  a theorem about the Go code: it is established on the real objects on every check (reflection walk
+  over clones + content hash of everything the runs share before and after `Run()`).
+  Without it: `shared_coolant_starts_cold` (D4), `shared_archive_starts_nonempty` (seed C08a class),
+  `shared_counter_runs_nothing`, `shared_observer_cell_breaks_noninterference` (D28),
+  `unlocked_saver_mixes_results`.
+* `unwritten_untouched`, `template_untouched` — a cell in no write set (the template, the input
+  data) keeps its value.
+* `fresh_start`, `fresh_start_anneal`, `same_input_data`, `unloadable_data_fails_every_run` — every
+  run starts annealing from (starting temperature, iteration counter 0 → first iteration 1, empty
+  solution set, the data it loaded = the shared input data), whatever ran before or beside it;
+  loading is part of the clone event, reads the shared data cell and fails when it cannot be loaded.
+  Here "iteration 1" and "empty solution set" DEPEND on the hypothesis: counter and archive are
+  aliasable cells like the coolant.
+* `counter_invariant`, `progress_reachable`, `schedule_bounded`, `all_finish`, `can_always_complete`
+  — the channel/WaitGroup bookkeeping: in-flight ≤ bound, spawned ≤ runs, WaitGroup counter = runs
+  not yet finished; no reachable state is stuck; every schedule is finite (explicit bound); a schedule
+  that cannot be extended has returned from `Run()` with all runs finished.  No fairness assumption
+  is needed.  (Finiteness needs `ClonePrivate` now: a run whose counter another run writes need not
+  end.)
+* `failure_isolated` — with failures confined to the failing run (`isolate = true`, the `recover` in
+  `doRun` since the D26 repair), a panic at ANY of the three sites (clone / initialise / load, an
+  iteration, a FinishedAnnealing observer) changes nothing for the others and `Run()` still returns,
+  reporting exactly the failed runs.  `today_all_finish_partial` is the statement that holds for bare
+  goroutines (`isolate = false`, the code before the repair): only when no run fails;
+  `bare_goroutine_panic_loses_siblings` refutes the full statement.
 
 Partial: the atomic-step interleaving semantics of the model is sequentially consistent; it is
 not the Go memory model.  Data-race freedom of the real code is sampled (reflection walk for
-shared mutable objects + the race detector over the same scenarios), never proved.
+shared mutable objects, content hash of shared objects across `Run()`, the race detector over the
+same scenarios), never proved.
 
 Every `theorem` in this file is audited by `./check C08` (`#print axioms`).
 -/
 namespace Crem.Runs
 
-variable {Sh P C : Type}
+variable {V : Type}
 
 /-! ## independence of the runs -/
 
-/-- For every schedule and every run `i` that has started annealing: what it saw when it started
-is its own fresh state `(initP i, c₀)` (`c₀` = the template's cell when `Run()` was entered); its
-local state now is what ITS OWN `steps i` steps make of that state; none of those steps was taken
-after it was done or should have failed.  If the run has completed, then for every fuel that
-suffices the run executed alone has the very same outcome: `failed` in the same local state if it
-panicked, `finished` with the same final local state (= the same output) otherwise. -/
-theorem noninterference (cfg : Config Sh P C) (hpriv : ClonePrivate cfg) (cells₀ : Nat → C)
-    (sch : List Ev) (s : State P C) (hrun : run cfg (init cfg cells₀) sch = some s)
+/-- For every schedule and every run `i`, on the cells that are `i`'s own business (`Own ft i`: what
+it reads or writes, lock-guarded cells excepted):
+(1) if it has started (and did not panic while being cloned) it reported, at StartedAnnealing, the
+    clone of the INITIAL heap;
+(2) while it anneals, the heap is what ITS OWN `steps i` iterations make of that clone;
+(3) once it has completed, for every fuel that suffices the run executed alone on the initial heap
+    has the very same outcome: `failed` (same site, same own cells) if it panicked, `finished` with
+    the same own cells otherwise. -/
+theorem noninterference (cfg : Config V) (ft : Footprint) (hpriv : ClonePrivate cfg ft) (h₀ : Heap V)
+    (sch : List Ev) (s : State V) (hrun : run cfg (init cfg h₀) sch = some s)
     (i : Nat) (hi : i < cfg.runs) :
-    let l₀ := (cfg.initP i, cells₀ cfg.tmpl)
-    (s.phase i = .running ∨ s.phase i = .released ∨ s.phase i = .finished →
-        s.obs i = some l₀ ∧ loc cfg s i = iter (cfg.step cfg.shared) (s.steps i) l₀) ∧
+    (s.phase i ≠ .idle ∧ s.phase i ≠ .spawned →
+        ((cfg.prog i).cloneFails h₀ = true ∧ s.err i = true ∧ s.steps i = 0) ∨
+        ((cfg.prog i).cloneFails h₀ = false ∧
+          ∃ o, s.obs i = some o ∧ AgreeOn (Own ft i) o ((cfg.prog i).clone h₀))) ∧
+    (s.phase i = .running ∧ s.err i = false →
+        AgreeOn (Own ft i) s.heap (iter (cfg.prog i).step (s.steps i) ((cfg.prog i).clone h₀))) ∧
     (s.phase i = .released ∨ s.phase i = .finished →
         ∀ fuel, s.steps i ≤ fuel →
-          solo cfg.toWorker cfg.shared fuel l₀ =
-            if s.err i then .failed (loc cfg s i) else .finished (loc cfg s i)) := by
-  intro l₀
-  have hw := (Tr.run hpriv hrun).2.worker i hi
-  refine ⟨?_, ?_⟩
+          Outcome.SameOn (Own ft i) (if s.err i then .failed s.heap else .finished s.heap)
+            (solo (cfg.prog i) fuel h₀)) := by
+  have hw := (Tr.run hpriv hrun).2 i hi
+  have stopped : ∀ {ob h k}, Stopped (cfg.prog i) (Own ft i) h₀ ob h k →
+      ((cfg.prog i).cloneFails h₀ = true ∧ k = 0) ∨
+      ((cfg.prog i).cloneFails h₀ = false ∧ ∃ o, ob = some o ∧ AgreeOn (Own ft i) o ((cfg.prog i).clone h₀)) := by
+    intro ob h k hs
+    rcases hs with ⟨hk, hc, _⟩ | ⟨hc, _⟩ | ⟨hc, _⟩
+    · exact Or.inl ⟨hc, hk⟩
+    · exact Or.inr ⟨hc.cloned, hc.obs⟩
+    · exact Or.inr ⟨hc.cloned, hc.obs⟩
+  have ended : ∀ {ob h k er}, Ended (cfg.prog i) (Own ft i) h₀ ob h k er →
+      ((cfg.prog i).cloneFails h₀ = true ∧ er = true ∧ k = 0) ∨
+      ((cfg.prog i).cloneFails h₀ = false ∧ ∃ o, ob = some o ∧ AgreeOn (Own ft i) o ((cfg.prog i).clone h₀)) := by
+    intro ob h k er he
+    rcases he with ⟨he, hs⟩ | ⟨_, hs⟩
+    · rcases stopped hs with ⟨a, b⟩ | h
+      · exact Or.inl ⟨a, he, b⟩
+      · exact Or.inr h
+    · exact Or.inr ⟨hs.1.cloned, hs.1.obs⟩
+  refine ⟨?_, ?_, ?_⟩
   · intro hph
-    rcases hph with h | h | h <;> rw [h] at hw
-    · exact ⟨hw.1, hw.2.1⟩
-    · exact ⟨hw.1.1, hw.1.2.1⟩
-    · exact ⟨hw.1.1, hw.1.2.1⟩
+    cases hp : s.phase i with
+    | idle => exact absurd hp hph.1
+    | spawned => exact absurd hp hph.2
+    | running =>
+      rw [hp] at hw
+      rcases hw with ⟨he, hs⟩ | ⟨_, hc, _⟩
+      · rcases stopped hs with ⟨a, b⟩ | h
+        · exact Or.inl ⟨a, he, b⟩
+        · exact Or.inr h
+      · exact Or.inr ⟨hc.cloned, hc.obs⟩
+    | saved => rw [hp] at hw; exact Or.inr ⟨hw.2.1.cloned, hw.2.1.obs⟩
+    | released => rw [hp] at hw; exact ended hw
+    | finished => rw [hp] at hw; exact ended hw
+  · intro ⟨hp, he⟩
+    rw [hp] at hw
+    rcases hw with ⟨he', _⟩ | ⟨_, _, hag⟩
+    · rw [he] at he'; cases he'
+    · exact hag
   · intro hph fuel hf
-    rcases hph with h | h <;> rw [h] at hw <;> exact solo_of_core hw.1 hw.2 fuel hf
+    rcases hph with hp | hp <;> rw [hp] at hw <;> exact solo_of_ended hw fuel hf
 
-/-- The product-state reading `shared × (i → local i)`: when worker `i`'s cell simply IS cell `i + 1`
-(and the template's is cell 0) nothing has to be assumed — the state is a product by construction
-and `noninterference` holds outright. -/
-theorem noninterference_product (cfg : Config Sh P C) (htmpl : cfg.tmpl = 0) (haddr : ∀ i, cfg.addr i = i + 1)
-    (cells₀ : Nat → C) (sch : List Ev) (s : State P C) (hrun : run cfg (init cfg cells₀) sch = some s)
-    (i : Nat) (hi : i < cfg.runs) :
-    (s.phase i = .running ∨ s.phase i = .released ∨ s.phase i = .finished →
-        s.obs i = some (cfg.initP i, cells₀ 0) ∧
-        loc cfg s i = iter (cfg.step cfg.shared) (s.steps i) (cfg.initP i, cells₀ 0)) ∧
-    (s.phase i = .released ∨ s.phase i = .finished →
-        ∀ fuel, s.steps i ≤ fuel →
-          solo cfg.toWorker cfg.shared fuel (cfg.initP i, cells₀ 0) =
-            if s.err i then .failed (loc cfg s i) else .finished (loc cfg s i)) := by
-  have hp : ClonePrivate cfg := by
-    refine ⟨?_, ?_⟩
-    · intro j _; rw [haddr j, htmpl]; omega
-    · intro j _ k _ h; rw [haddr j, haddr k] at h; omega
-  have := noninterference cfg hp cells₀ sch s hrun i hi
-  rw [htmpl] at this
-  exact this
-
-/-- The result a run delivers is the result of executing it alone. -/
-theorem result_is_solo (cfg : Config Sh P C) (hpriv : ClonePrivate cfg) (cells₀ : Nat → C)
-    (sch : List Ev) (s : State P C) (hrun : run cfg (init cfg cells₀) sch = some s)
-    (i : Nat) (hi : i < cfg.runs) (l : P × C) (hres : result cfg s i = some l) :
-    ∀ fuel, s.steps i ≤ fuel → solo cfg.toWorker cfg.shared fuel (cfg.initP i, cells₀ cfg.tmpl) = .finished l := by
+/-- The result a run delivers is, on its own cells, the result of executing it alone. -/
+theorem result_is_solo (cfg : Config V) (ft : Footprint) (hpriv : ClonePrivate cfg ft) (h₀ : Heap V)
+    (sch : List Ev) (s : State V) (hrun : run cfg (init cfg h₀) sch = some s)
+    (i : Nat) (hi : i < cfg.runs) (h : Heap V) (hres : result s i = some h) :
+    ∀ fuel, s.steps i ≤ fuel → ∃ h', solo (cfg.prog i) fuel h₀ = .finished h' ∧ AgreeOn (Own ft i) h h' := by
   intro fuel hf
   unfold result at hres
   split at hres
   · rename_i hc
     cases hres
-    have := (noninterference cfg hpriv cells₀ sch s hrun i hi).2 hc.1 fuel hf
-    rw [this, hc.2]; rfl
+    have := (noninterference cfg ft hpriv h₀ sch s hrun i hi).2.2 hc.1 fuel hf
+    rw [hc.2] at this
+    simp only [Bool.false_eq_true, if_false] at this
+    cases hs : solo (cfg.prog i) fuel h₀ with
+    | finished h' => rw [hs] at this; exact ⟨h', rfl, this⟩
+    | failed h' => rw [hs] at this; exact this.elim
+    | outOfFuel h' => rw [hs] at this; exact this.elim
   · cases hres
 
-/-- The template's cell is never written (so every clone, whenever it is made, copies `c₀`). -/
-theorem template_untouched (cfg : Config Sh P C) (hpriv : ClonePrivate cfg) (cells₀ : Nat → C)
-    (sch : List Ev) (s : State P C) (hrun : run cfg (init cfg cells₀) sch = some s) :
-    s.cells cfg.tmpl = cells₀ cfg.tmpl :=
-  (Tr.run hpriv hrun).2.tmpl_cell
+/-- A cell that is in no run's write set — the template annealer, the input data — is never
+changed (so every clone, whenever it is made, copies the template as `Run()` found it). -/
+theorem unwritten_untouched (cfg : Config V) (ft : Footprint) (hpriv : ClonePrivate cfg ft) (h₀ : Heap V)
+    (sch : List Ev) (s : State V) (hrun : run cfg (init cfg h₀) sch = some s)
+    (a : Nat) (ha : ∀ i, i < cfg.runs → a ∉ ft.W i) : s.heap a = h₀ a :=
+  run_unwritten hpriv hrun a ha
 
-/-- Provided `ClonePrivate`: whatever has run before or runs beside it, a run starts annealing
-from its fresh private state and the template's original cell. -/
-theorem fresh_start (cfg : Config Sh P C) (hpriv : ClonePrivate cfg) (cells₀ : Nat → C)
-    (sch : List Ev) (s : State P C) (hrun : run cfg (init cfg cells₀) sch = some s)
-    (i : Nat) (hi : i < cfg.runs) (hstarted : s.phase i ≠ .idle ∧ s.phase i ≠ .spawned) :
-    s.obs i = some (cfg.initP i, cells₀ cfg.tmpl) := by
-  have h := (noninterference cfg hpriv cells₀ sch s hrun i hi).1
-  cases hph : s.phase i with
-  | idle => exact absurd hph hstarted.1
-  | spawned => exact absurd hph hstarted.2
-  | running => exact (h (Or.inl hph)).1
-  | released => exact (h (Or.inr (Or.inl hph))).1
-  | finished => exact (h (Or.inr (Or.inr hph))).1
+/-- Provided `ClonePrivate`: whatever has run before or runs beside it, a run that gets through
+its clone phase alone reports at StartedAnnealing, on its own cells, the clone of the heap `Run()`
+was entered with. -/
+theorem fresh_start (cfg : Config V) (ft : Footprint) (hpriv : ClonePrivate cfg ft) (h₀ : Heap V)
+    (sch : List Ev) (s : State V) (hrun : run cfg (init cfg h₀) sch = some s)
+    (i : Nat) (hi : i < cfg.runs) (hstarted : s.phase i ≠ .idle ∧ s.phase i ≠ .spawned)
+    (hload : (cfg.prog i).cloneFails h₀ = false) :
+    ∃ o, s.obs i = some o ∧ AgreeOn (Own ft i) o ((cfg.prog i).clone h₀) := by
+  rcases (noninterference cfg ft hpriv h₀ sch s hrun i hi).1 hstarted with ⟨h, _⟩ | ⟨_, h⟩
+  · rw [hload] at h; cases h
+  · exact h
 
-/-- every clone of `annealCfg … priv := true` owns its coolant -/
-theorem annealCfg_private (inp : Inputs) (runs bound : Nat) (isolate : Bool) :
-    ClonePrivate (annealCfg inp runs bound isolate true) := by
-  refine ⟨?_, ?_⟩
-  · intro i _; simp [annealCfg]
-  · intro i _ j _ h; simp [annealCfg] at h; exact h
+/-- with every clone owning six cells of its own (and no stateful observer on the shared notifier)
+the annealing scenario is `ClonePrivate`: the footprint is PROVED for the program, the disjointness
+is arithmetic -/
+theorem annealCfg_private (inp : Inputs) (hinv : inp.invObserver = false) (runs bound : Nat) (isolate : Bool) :
+    ClonePrivate (annealCfg inp runs bound isolate privLayout) (annealFoot privLayout inp) :=
+  ⟨fun i _ => annealProg_respects privLayout inp i, privLayout_disjoint inp hinv runs⟩
 
-/-- The property's words: every run of an annealing scenario whose clones are private starts at
-the configured starting temperature (no cooling applied: `T₀·a⁰`), iteration 1, with an empty
-solution set and its data loaded — for every number of runs, every concurrency bound, every
-schedule, with or without failing siblings. -/
-theorem fresh_start_anneal (inp : Inputs) (runs bound : Nat) (isolate : Bool) (cells₀ : Nat → Coolant)
-    (h0 : cells₀ 0 = ⟨0⟩) (sch : List Ev) (s : State RunPriv Coolant)
-    (hrun : run (annealCfg inp runs bound isolate true) (init (annealCfg inp runs bound isolate true) cells₀) sch = some s)
+/-- The footprint declared for the annealing program is what the program does, for EVERY layout
+(aliased ones included): only the disjointness part of `ClonePrivate` depends on the layout. -/
+theorem annealProg_footprint (lay : Layout) (inp : Inputs) (i : Nat) :
+    Respects (annealProg lay inp i) ((annealFoot lay inp).R i) ((annealFoot lay inp).W i) :=
+  annealProg_respects lay inp i
+
+/-- The cells of the template annealer (coolant, iteration counter, archive storage, model: addresses
+0-3) and the input data (address 4) are never written by a scenario whose clones are private: every
+clone, whenever it is made, copies the template as `Run()` found it. -/
+theorem template_untouched (inp : Inputs) (hinv : inp.invObserver = false) (runs bound : Nat) (isolate : Bool)
+    (h₀ : Heap Nat) (sch : List Ev) (s : State Nat)
+    (hrun : run (annealCfg inp runs bound isolate privLayout) (init (annealCfg inp runs bound isolate privLayout) h₀) sch = some s)
+    (a : Nat) (ha : a ≤ sharedData) : s.heap a = h₀ a := by
+  refine unwritten_untouched _ _ (annealCfg_private inp hinv runs bound isolate) h₀ sch s hrun a ?_
+  intro i _ hmem
+  simp only [annealFoot, privLayout, hinv, List.mem_append, List.mem_cons, List.not_mem_nil, or_false,
+    Bool.false_eq_true, if_false] at hmem
+  omega
+
+/-- `noninterference` for the private layout needs no hypothesis about footprints any more. -/
+theorem noninterference_product (inp : Inputs) (hinv : inp.invObserver = false) (runs bound : Nat) (isolate : Bool)
+    (h₀ : Heap Nat) (sch : List Ev) (s : State Nat)
+    (hrun : run (annealCfg inp runs bound isolate privLayout) (init (annealCfg inp runs bound isolate privLayout) h₀) sch = some s)
+    (i : Nat) (hi : i < runs) :
+    (s.phase i = .running ∧ s.err i = false →
+        AgreeOn (Own (annealFoot privLayout inp) i) s.heap
+          (iter (annealProg privLayout inp i).step (s.steps i) ((annealProg privLayout inp i).clone h₀))) ∧
+    (s.phase i = .released ∨ s.phase i = .finished →
+        ∀ fuel, s.steps i ≤ fuel →
+          Outcome.SameOn (Own (annealFoot privLayout inp) i) (if s.err i then .failed s.heap else .finished s.heap)
+            (solo (annealProg privLayout inp i) fuel h₀)) :=
+  (noninterference _ _ (annealCfg_private inp hinv runs bound isolate) h₀ sch s hrun i hi).2
+
+/-- The property's words: every run of an annealing scenario whose clones are private that gets
+through its clone phase starts with no cooling applied (temperature `T₀·a⁰`), the iteration counter
+the template had (0: its first iteration is numbered 1), an empty solution set, and has loaded
+exactly the shared input data — for every number of runs, every concurrency bound, every schedule,
+with or without failing siblings.  Coolant, counter, archive and data are aliasable cells: all four
+clauses rest on `ClonePrivate` (see the refutations below). -/
+theorem fresh_start_anneal (inp : Inputs) (hinv : inp.invObserver = false) (runs bound : Nat) (isolate : Bool)
+    (h₀ : Heap Nat) (hc : h₀ tmplCool = 0) (hit : h₀ tmplIter = 0) (sch : List Ev) (s : State Nat)
+    (hrun : run (annealCfg inp runs bound isolate privLayout) (init (annealCfg inp runs bound isolate privLayout) h₀) sch = some s)
+    (i : Nat) (hi : i < runs) (hstarted : s.phase i ≠ .idle ∧ s.phase i ≠ .spawned)
+    (hload : (annealProg privLayout inp i).cloneFails h₀ = false) :
+    ∃ o, s.obs i = some o ∧ o (privLayout.cool i) = 0 ∧ o (privLayout.iter i) = 0 ∧ o (privLayout.arch i) = 0 ∧
+      o (privLayout.data i) = h₀ sharedData ∧ h₀ sharedData ≠ 0 := by
+  obtain ⟨o, ho, hag⟩ := fresh_start _ _ (annealCfg_private inp hinv runs bound isolate) h₀ sch s hrun i hi hstarted hload
+  have own : ∀ a, a ∈ (annealFoot privLayout inp).R i → Own (annealFoot privLayout inp) i a :=
+    read_own (privLayout_disjoint inp hinv runs) hi
+  have hd : h₀ sharedData ≠ 0 := by
+    intro h0
+    simp [annealProg, h0] at hload
+  obtain ⟨v1, v2, v3, v4⟩ := clone_priv_values inp hinv i h₀
+  refine ⟨o, ho, ?_, ?_, ?_, ?_, hd⟩
+  · rw [hag _ (own _ (by simp [annealFoot]))]; exact v1.trans hc
+  · rw [hag _ (own _ (by simp [annealFoot]))]; exact v2.trans hit
+  · rw [hag _ (own _ (by simp [annealFoot]))]; exact v3
+  · rw [hag _ (own _ (by simp [annealFoot]))]; exact v4
+
+/-- "loads the same input data": any two runs that got through their clone phase hold the same
+data, the shared input data. -/
+theorem same_input_data (inp : Inputs) (hinv : inp.invObserver = false) (runs bound : Nat) (isolate : Bool)
+    (h₀ : Heap Nat) (sch : List Ev) (s : State Nat)
+    (hrun : run (annealCfg inp runs bound isolate privLayout) (init (annealCfg inp runs bound isolate privLayout) h₀) sch = some s)
+    (i j : Nat) (hi : i < runs) (hj : j < runs)
+    (hsi : s.phase i ≠ .idle ∧ s.phase i ≠ .spawned) (hsj : s.phase j ≠ .idle ∧ s.phase j ≠ .spawned)
+    (hli : (annealProg privLayout inp i).cloneFails h₀ = false) (hlj : (annealProg privLayout inp j).cloneFails h₀ = false) :
+    ∃ oi oj, s.obs i = some oi ∧ s.obs j = some oj ∧ oi (privLayout.data i) = oj (privLayout.data j) := by
+  have own : ∀ k, k < runs → Own (annealFoot privLayout inp) k (privLayout.data k) :=
+    fun k hk => read_own (privLayout_disjoint inp hinv runs) hk _ (by simp [annealFoot])
+  have val : ∀ k, (annealProg privLayout inp k).clone h₀ (privLayout.data k) = h₀ sharedData :=
+    fun k => (clone_priv_values inp hinv k h₀).2.2.2
+  obtain ⟨oi, hoi, hai⟩ := fresh_start _ _ (annealCfg_private inp hinv runs bound isolate) h₀ sch s hrun i hi hsi hli
+  obtain ⟨oj, hoj, haj⟩ := fresh_start _ _ (annealCfg_private inp hinv runs bound isolate) h₀ sch s hrun j hj hsj hlj
+  exact ⟨oi, oj, hoi, hoj, by rw [hai _ (own i hi), haj _ (own j hj)]; exact (val i).trans (val j).symm⟩
+
+/-- Loading can fail, and then it fails for every run alike: with input data that cannot be loaded
+every run that has got past `go doRun` and its clone event has stopped with an error before its
+first iteration. -/
+theorem unloadable_data_fails_every_run (inp : Inputs) (hinv : inp.invObserver = false) (runs bound : Nat)
+    (isolate : Bool) (h₀ : Heap Nat) (hbad : h₀ sharedData = 0) (sch : List Ev) (s : State Nat)
+    (hrun : run (annealCfg inp runs bound isolate privLayout) (init (annealCfg inp runs bound isolate privLayout) h₀) sch = some s)
     (i : Nat) (hi : i < runs) (hstarted : s.phase i ≠ .idle ∧ s.phase i ≠ .spawned) :
-    s.obs i = some ({ runId := i, iteration := 1, archive := 0, dataLoaded := true }, { coolings := 0 }) := by
-  have := fresh_start _ (annealCfg_private inp runs bound isolate) cells₀ sch s hrun i hi hstarted
-  rw [this]
-  show some (freshPriv i, cells₀ 0) = _
-  rw [h0]; rfl
+    s.err i = true ∧ s.steps i = 0 := by
+  rcases (noninterference _ _ (annealCfg_private inp hinv runs bound isolate) h₀ sch s hrun i hi).1 hstarted with
+    ⟨_, he, hk⟩ | ⟨hc, _⟩
+  · exact ⟨he, hk⟩
+  · simp [annealCfg, annealProg, hbad] at hc
 
 /-! ## the bounded-concurrency bookkeeping -/
 
@@ -152,8 +258,8 @@ theorem fresh_start_anneal (inp : Inputs) (runs bound : Nat) (isolate : Bool) (c
 per run in flight and never more than its capacity; runs are started in order and never more than
 `runs`; the WaitGroup counter is the number of runs not yet finished; `Run()` has returned only
 after all of them. -/
-theorem counter_invariant (cfg : Config Sh P C) (cells₀ : Nat → C) (sch : List Ev) (s : State P C)
-    (hrun : run cfg (init cfg cells₀) sch = some s) :
+theorem counter_invariant (cfg : Config V) (h₀ : Heap V) (sch : List Ev) (s : State V)
+    (hrun : run cfg (init cfg h₀) sch = some s) :
     s.chan = cnt inflight s.phase s.next ∧ s.chan ≤ cfg.bound ∧ s.next ≤ cfg.runs ∧
     (∀ i, s.next ≤ i → s.phase i = .idle) ∧ (∀ i, i < s.next → s.phase i ≠ .idle) ∧
     s.wg + cnt isFinished s.phase s.next = cfg.runs ∧
@@ -163,45 +269,48 @@ theorem counter_invariant (cfg : Config Sh P C) (cells₀ : Nat → C) (sch : Li
 
 /-- No deadlock: with a concurrency bound of at least one, in every reachable state in which
 `Run()` has not returned (and the process has not been killed) some event is enabled. -/
-theorem progress_reachable (cfg : Config Sh P C) (hb : 0 < cfg.bound) (cells₀ : Nat → C) (sch : List Ev)
-    (s : State P C) (hrun : run cfg (init cfg cells₀) sch = some s)
+theorem progress_reachable (cfg : Config V) (hb : 0 < cfg.bound) (h₀ : Heap V) (sch : List Ev)
+    (s : State V) (hrun : run cfg (init cfg h₀) sch = some s)
     (hc : s.crashed = false) (hr : s.returned = false) : ∃ e s', exec cfg s e = some s' :=
   progress hb (Book.run hrun) hc hr
 
 /-- No livelock: every event strictly decreases a natural-number measure, so a schedule is never
-longer than the measure of the initial state, `Σ_i (μ (initP i) + 5) + 2`, where `μ` bounds the
-number of steps a run still has to take. -/
-theorem schedule_bounded (cfg : Config Sh P C) (μ : P → Nat) (hμ : Terminates cfg μ) (cells₀ : Nat → C)
-    (sch : List Ev) (s : State P C) (hrun : run cfg (init cfg cells₀) sch = some s) :
-    sch.length + measure cfg μ s ≤ measure cfg μ (init cfg cells₀) ∧
-    measure cfg μ (init cfg cells₀) = sumN (fun i => μ (cfg.initP i) + 5) cfg.runs + 2 := by
+longer than the measure of the initial state, `Σ_i (B i + 6) + 2`, where `B i` bounds the number
+of iterations run `i` takes ALONE (`Terminates`).  `ClonePrivate` is needed: a run whose iteration
+counter another run writes need not end. -/
+theorem schedule_bounded (cfg : Config V) (ft : Footprint) (hpriv : ClonePrivate cfg ft) (h₀ : Heap V)
+    (B : Nat → Nat) (hμ : Terminates cfg h₀ B) (sch : List Ev) (s : State V)
+    (hrun : run cfg (init cfg h₀) sch = some s) :
+    sch.length + measure cfg B s ≤ measure cfg B (init cfg h₀) ∧
+    measure cfg B (init cfg h₀) = sumN (fun i => B i + 6) cfg.runs + 2 := by
   refine ⟨?_, ?_⟩
-  · have key : ∀ (sch : List Ev) (s₀ s : State P C), Book cfg s₀ → run cfg s₀ sch = some s →
-        sch.length + measure cfg μ s ≤ measure cfg μ s₀ := by
+  · have key : ∀ (sch : List Ev) (s₀ s : State V), Book cfg s₀ → Tr cfg ft h₀ s₀ → run cfg s₀ sch = some s →
+        sch.length + measure cfg B s ≤ measure cfg B s₀ := by
       intro sch
       induction sch with
-      | nil => intro s₀ s _ h; simp only [run] at h; cases h; simp
+      | nil => intro s₀ s _ _ h; simp only [run] at h; cases h; simp
       | cons e es ih =>
-        intro s₀ s hB h
+        intro s₀ s hB hT h
         simp only [run] at h
         cases he : exec cfg s₀ e with
         | none => rw [he] at h; cases h
         | some s₁ =>
           rw [he] at h
-          have h1 := ih s₁ s (hB.exec he) h
-          have h2 := measure_dec hB hμ he
+          have hT₁ := Tr.exec hpriv hB hT he
+          have h1 := ih s₁ s (hB.exec he) hT₁ h
+          have h2 := measure_dec hB hT₁ hμ he
           simp only [List.length_cons]; omega
-    exact key sch _ s (Book.init cfg cells₀) hrun
+    exact key sch _ s (Book.init cfg h₀) (Tr.init cfg ft h₀) hrun
   · simp only [measure, init]
-    have : sumN (weight cfg μ (init cfg cells₀)) cfg.runs = sumN (fun i => μ (cfg.initP i) + 5) cfg.runs :=
+    have : sumN (weight B (init cfg h₀)) cfg.runs = sumN (fun i => B i + 6) cfg.runs :=
       sumN_congr (fun _ _ => rfl)
     simp only [init] at this
     rw [this]; simp
 
 /-- Every schedule that cannot be extended has completed all runs: `Run()` has returned and every
 one of the `runs` runs has finished.  (`Safe`: failures are isolated, or no run fails.) -/
-theorem all_finish (cfg : Config Sh P C) (hb : 0 < cfg.bound) (hsafe : Safe cfg) (cells₀ : Nat → C)
-    (sch : List Ev) (s : State P C) (hrun : run cfg (init cfg cells₀) sch = some s)
+theorem all_finish (cfg : Config V) (hb : 0 < cfg.bound) (hsafe : Safe cfg) (h₀ : Heap V)
+    (sch : List Ev) (s : State V) (hrun : run cfg (init cfg h₀) sch = some s)
     (hmax : ∀ e, exec cfg s e = none) :
     s.returned = true ∧ ∀ i, i < cfg.runs → s.phase i = .finished := by
   have hB := Book.run hrun
@@ -216,7 +325,6 @@ theorem all_finish (cfg : Config Sh P C) (hb : 0 < cfg.bound) (hsafe : Safe cfg)
   obtain ⟨hn, hw⟩ := hB.ret_done hr
   have hfin : cnt isFinished s.phase s.next = s.next := by have := hB.wg_eq; omega
   intro i hi
-  -- all `next = runs` workers are counted as finished
   have hnot : cnt notFinished s.phase s.next = 0 := by
     have hsum : ∀ n, cnt isFinished s.phase n + cnt notFinished s.phase n = n := by
       intro n
@@ -232,54 +340,57 @@ theorem all_finish (cfg : Config Sh P C) (hb : 0 < cfg.bound) (hsafe : Safe cfg)
 
 /-- From every reachable state the scenario can be completed, and (by `schedule_bounded`) every
 way of continuing does complete it: whatever the scheduler has done so far, `Run()` returns. -/
-theorem can_always_complete (cfg : Config Sh P C) (hb : 0 < cfg.bound) (hsafe : Safe cfg) (μ : P → Nat)
-    (hμ : Terminates cfg μ) (cells₀ : Nat → C) (sch : List Ev) (s : State P C)
-    (hrun : run cfg (init cfg cells₀) sch = some s) :
-    ∃ sch' s', run cfg (init cfg cells₀) (sch ++ sch') = some s' ∧ s'.returned = true := by
-  have key : ∀ (n : Nat) (s : State P C), measure cfg μ s ≤ n → Book cfg s → s.crashed = false →
+theorem can_always_complete (cfg : Config V) (ft : Footprint) (hpriv : ClonePrivate cfg ft) (hb : 0 < cfg.bound)
+    (hsafe : Safe cfg) (h₀ : Heap V) (B : Nat → Nat) (hμ : Terminates cfg h₀ B) (sch : List Ev) (s : State V)
+    (hrun : run cfg (init cfg h₀) sch = some s) :
+    ∃ sch' s', run cfg (init cfg h₀) (sch ++ sch') = some s' ∧ s'.returned = true := by
+  have key : ∀ (n : Nat) (s : State V), measure cfg B s ≤ n → Book cfg s → Tr cfg ft h₀ s → s.crashed = false →
       ∃ sch' s', run cfg s sch' = some s' ∧ s'.returned = true := by
     intro n
     induction n with
     | zero =>
-      intro s hm _ hc
+      intro s hm _ _ hc
       simp only [measure, hc] at hm
       simp at hm
     | succ n ih =>
-      intro s hm hB hc
+      intro s hm hB hT hc
       cases hr : s.returned with
       | true => exact ⟨[], s, rfl, hr⟩
       | false =>
         obtain ⟨e, s₁, he⟩ := progress hb hB hc hr
-        have hdec := measure_dec hB hμ he
-        obtain ⟨sch', s', h1, h2⟩ := ih s₁ (by omega) (hB.exec he) (exec_not_crashed hsafe hc he)
+        have hT₁ := Tr.exec hpriv hB hT he
+        have hdec := measure_dec hB hT₁ hμ he
+        obtain ⟨sch', s', h1, h2⟩ := ih s₁ (by omega) (hB.exec he) hT₁ (exec_not_crashed hsafe hc he)
         exact ⟨e :: sch', s', by simp only [run, he]; exact h1, h2⟩
-  obtain ⟨sch', s', h1, h2⟩ := key _ s (Nat.le_refl _) (Book.run hrun) (run_not_crashed hsafe hrun)
+  obtain ⟨hB, hT⟩ := Tr.run hpriv hrun
+  obtain ⟨sch', s', h1, h2⟩ := key _ s (Nat.le_refl _) hB hT (run_not_crashed hsafe hrun)
   exact ⟨sch', s', by rw [run_append, hrun]; exact h1, h2⟩
 
 /-! ## failures -/
 
-/-- The behaviour the property demands.  With a panic confined to the run it occurs in, for every
+/-- The behaviour the property demands.  With a panic confined to the run it occurs in — at ANY of
+the three sites: clone / initialise / load, an iteration, a FinishedAnnealing observer — for every
 schedule that cannot be extended: the process is alive, `Run()` has returned, every run has
-finished, and every run — failing siblings or not — has exactly the outcome of executing it
-alone: `err i` iff its own solo execution fails (then in the same state), otherwise its result is
-delivered and equals the solo result.  The runs `Run()` reports as failed are exactly those. -/
-theorem failure_isolated (cfg : Config Sh P C) (hb : 0 < cfg.bound) (hiso : cfg.isolate = true)
-    (hpriv : ClonePrivate cfg) (cells₀ : Nat → C) (sch : List Ev) (s : State P C)
-    (hrun : run cfg (init cfg cells₀) sch = some s) (hmax : ∀ e, exec cfg s e = none) :
+finished, and every run — failing siblings or not — has exactly the outcome of executing it alone:
+`err i` iff its own solo execution fails (then at the same site, with the same own cells), otherwise
+its result is delivered and equals the solo result on its own cells.  The runs `Run()` reports as
+failed are exactly those. -/
+theorem failure_isolated (cfg : Config V) (ft : Footprint) (hb : 0 < cfg.bound) (hiso : cfg.isolate = true)
+    (hpriv : ClonePrivate cfg ft) (h₀ : Heap V) (sch : List Ev) (s : State V)
+    (hrun : run cfg (init cfg h₀) sch = some s) (hmax : ∀ e, exec cfg s e = none) :
     s.crashed = false ∧ s.returned = true ∧
     ∀ i, i < cfg.runs →
       s.phase i = .finished ∧
       (∀ fuel, s.steps i ≤ fuel →
-        solo cfg.toWorker cfg.shared fuel (cfg.initP i, cells₀ cfg.tmpl) =
-          if s.err i then .failed (loc cfg s i) else .finished (loc cfg s i)) ∧
-      (s.err i = false → result cfg s i = some (loc cfg s i)) ∧
+        Outcome.SameOn (Own ft i) (if s.err i then .failed s.heap else .finished s.heap) (solo (cfg.prog i) fuel h₀)) ∧
+      (s.err i = false → result s i = some s.heap) ∧
       (s.err i = true ↔ i ∈ failedRuns cfg s) := by
   have hsafe : Safe cfg := Or.inl hiso
-  obtain ⟨hr, hall⟩ := all_finish cfg hb hsafe cells₀ sch s hrun hmax
+  obtain ⟨hr, hall⟩ := all_finish cfg hb hsafe h₀ sch s hrun hmax
   refine ⟨run_not_crashed hsafe hrun, hr, ?_⟩
   intro i hi
   have hph := hall i hi
-  refine ⟨hph, (noninterference cfg hpriv cells₀ sch s hrun i hi).2 (Or.inr hph), ?_, ?_⟩
+  refine ⟨hph, (noninterference cfg ft hpriv h₀ sch s hrun i hi).2.2 (Or.inr hph), ?_, ?_⟩
   · intro he; simp [result, hph, he]
   · simp [failedRuns, hi]
 
@@ -290,16 +401,16 @@ theorem failure_isolated (cfg : Config Sh P C) (hb : 0 < cfg.bound) (hiso : cfg.
          s.returned = true ∧ ∀ i, i < cfg.runs → s.phase i = .finished
 
    Refuted by `bare_goroutine_panic_loses_siblings` below.  What holds is the statement under the
-   additional hypothesis that no run ever fails: -/
-theorem today_all_finish_partial (cfg : Config Sh P C) (hb : 0 < cfg.bound) (_htoday : cfg.isolate = false)
-    (hnofault : ∀ l, cfg.fails cfg.shared l = false) (cells₀ : Nat → C)
-    (sch : List Ev) (s : State P C) (hrun : run cfg (init cfg cells₀) sch = some s)
+   additional hypothesis that no run ever fails (at any of the three sites): -/
+theorem today_all_finish_partial (cfg : Config V) (hb : 0 < cfg.bound) (_htoday : cfg.isolate = false)
+    (hnofault : ∀ i h, (cfg.prog i).cloneFails h = false ∧ (cfg.prog i).fails h = false ∧ (cfg.prog i).finishFails h = false)
+    (h₀ : Heap V) (sch : List Ev) (s : State V) (hrun : run cfg (init cfg h₀) sch = some s)
     (hmax : ∀ e, exec cfg s e = none) :
     s.returned = true ∧ ∀ i, i < cfg.runs → s.phase i = .finished :=
-  all_finish cfg hb (Or.inr hnofault) cells₀ sch s hrun hmax
+  all_finish cfg hb (Or.inr hnofault) h₀ sch s hrun hmax
 
 /-- A killed process does nothing any more: no event is enabled in a crashed state. -/
-theorem crashed_stuck (cfg : Config Sh P C) (s : State P C) (hc : s.crashed = true) (e : Ev) :
+theorem crashed_stuck (cfg : Config V) (s : State V) (hc : s.crashed = true) (e : Ev) :
     exec cfg s e = none := by
   cases e <;> simp [exec, hc]
 
@@ -307,48 +418,143 @@ theorem crashed_stuck (cfg : Config Sh P C) (s : State P C) (hc : s.crashed = tr
 
 section examples
 
-/-- budget 2, no failure -/
-def inpOK : Inputs := { budget := 2, archiveAfter := fun _ k => k, failRun := none, failAt := 0 }
-/-- budget 2, run 0 panics in its first iteration -/
-def inpFault : Inputs := { inpOK with failRun := some 0, failAt := 1 }
+/-- budget 2, no failure; the archive grows by one member per iteration, the model state adds the
+    run's number + 1, the saver writes 100·model + archive -/
+def inpOK : Inputs :=
+  { budget := 2, modelInit := fun i m _ => m + 10 * (i + 1), archiveAfter := fun _ _ a _ => a + 1,
+    modelAfter := fun i _ m _ => m + i + 1, encode := fun _ m a _ => 100 * m + a, failRun := none, failSite := .step,
+    failAt := 0, invObserver := false }
+/-- run 0 panics in its first iteration -/
+def inpFault : Inputs := { inpOK with failRun := some 0, failSite := .step, failAt := 1 }
+/-- run 0 panics while it is cloned / initialised -/
+def inpFaultClone : Inputs := { inpOK with failRun := some 0, failSite := .clone }
+/-- run 0 panics in a FinishedAnnealing observer -/
+def inpFaultFinish : Inputs := { inpOK with failRun := some 0, failSite := .finish }
+/-- `CheckingLoopInvariant = true` -/
+def inpInv : Inputs := { inpOK with invObserver := true }
 
-/-- the annealing worker terminates: `budget + 1 - iteration` decreases -/
-theorem anneal_terminates (inp : Inputs) (runs bound : Nat) (isolate priv : Bool) :
-    Terminates (annealCfg inp runs bound isolate priv) (fun p => inp.budget + 1 - p.iteration) := by
-  intro l hd _
-  simp only [annealCfg, annealWorker, decide_eq_false_iff_not, Nat.not_lt] at hd ⊢
+/-- the heap `Run()` is entered with: a pristine template, loadable data (7) -/
+def heap0 : Heap Nat := { cell := fun a => if a = sharedData then 7 else 0 }
+
+/-- the annealing run alone takes at most `budget` iterations from `heap0` -/
+theorem anneal_terminates (inp : Inputs) (runs bound : Nat) (isolate : Bool) (h₀ : Heap Nat) :
+    Terminates (annealCfg inp runs bound isolate privLayout) h₀ (fun _ => inp.budget) := by
+  intro i _ k hpath
+  -- the counter of the run alone after j iterations is (template counter) + j
+  have hcnt := iter_priv_value inp i h₀
+  show k ≤ inp.budget
+  apply Classical.byContradiction
+  intro hk
+  have hlast := (hpath (k - 1) (by omega)).1
+  have hc := hcnt (k - 1)
+  simp only [annealCfg, annealProg, decide_eq_false_iff_not, Nat.not_le] at hlast hc
   omega
 
 /-- two concurrent private runs, bare goroutines, no failure -/
-def cfgOK : Config Inputs RunPriv Coolant := annealCfg inpOK 2 2 false true
-/-- two sequential runs sharing the template's coolant (the code before the D4 repair) -/
-def cfgShared : Config Inputs RunPriv Coolant := annealCfg inpOK 2 1 false false
+def cfgOK : Config Nat := annealCfg inpOK 2 2 false privLayout
+/-- the coolant pointer copied by `DeepClone` (the code before the D4 repair): every clone uses the template's coolant -/
+def coolShared : Layout := { privLayout with cool := fun _ => tmplCool }
+/-- the archive storage reused by every clone (seed C08a class) -/
+def archShared : Layout := { privLayout with arch := fun _ => tmplArch }
+/-- the iteration counter reached through a pointer shared with the template -/
+def iterShared : Layout := { privLayout with iter := fun _ => tmplIter }
+def cfgCoolShared : Config Nat := annealCfg inpOK 2 1 false coolShared
+def cfgArchShared : Config Nat := annealCfg inpOK 2 2 false archShared
+def cfgIterShared : Config Nat := annealCfg inpOK 2 1 false iterShared
+/-- two concurrent private runs with a stateful observer on the shared notifier (D28) -/
+def cfgInv : Config Nat := annealCfg inpInv 2 2 false privLayout
 /-- two concurrent private runs, run 0 panics, bare goroutines (the code before the D26 repair) -/
-def cfgBare : Config Inputs RunPriv Coolant := annealCfg inpFault 2 2 false true
+def cfgBare : Config Nat := annealCfg inpFault 2 2 false privLayout
 /-- the same with failures isolated -/
-def cfgIso : Config Inputs RunPriv Coolant := annealCfg inpFault 2 2 true true
+def cfgIso : Config Nat := annealCfg inpFault 2 2 true privLayout
+def cfgIsoClone : Config Nat := annealCfg inpFaultClone 2 2 true privLayout
+def cfgIsoFinish : Config Nat := annealCfg inpFaultFinish 2 2 true privLayout
 
-def cells0 : Nat → Coolant := fun _ => ⟨0⟩
-
-/-- Non-vacuity: a complete schedule of 2 concurrent private runs exists (13 events); it ends
-returned with both runs finished after 2 steps each, both having started fresh. -/
+/-- Non-vacuity: a complete schedule of 2 concurrent private runs exists (15 events); it ends
+returned with both runs finished after 2 iterations each, both having started fresh (no cooling,
+counter 0, empty archive, data 7) and each with its own output. -/
 example :
-    (run cfgOK (init cfgOK cells0) (drive cfgOK 100 (init cfgOK cells0) []).2).map
-        (fun s => (s.returned, s.phase 0, s.phase 1)) = some (true, .finished, .finished) ∧
-    (run cfgOK (init cfgOK cells0) (drive cfgOK 100 (init cfgOK cells0) []).2).map
-        (fun s => (s.steps 0, s.steps 1, s.obs 1)) = some (2, 2, some (freshPriv 1, ⟨0⟩)) ∧
-    (drive cfgOK 100 (init cfgOK cells0) []).2.length = 13 ∧ ClonePrivate cfgOK := by
+    (run cfgOK (init cfgOK heap0) (drive cfgOK 100 (init cfgOK heap0) []).2).map
+        (fun s => (s.returned, s.phase 0, s.phase 1, s.steps 0, s.steps 1)) = some (true, .finished, .finished, 2, 2) ∧
+    (run cfgOK (init cfgOK heap0) (drive cfgOK 100 (init cfgOK heap0) []).2).map
+        (fun s => (s.obs 1).map (fun o => (o (privLayout.cool 1), o (privLayout.iter 1), o (privLayout.arch 1), o (privLayout.data 1))))
+      = some (some (0, 0, 0, 7)) ∧
+    (run cfgOK (init cfgOK heap0) (drive cfgOK 100 (init cfgOK heap0) []).2).map
+        (fun s => (s.heap (privLayout.out 0), s.heap (privLayout.out 1))) = some (1202, 2402) ∧
+    (drive cfgOK 100 (init cfgOK heap0) []).2.length = 15 ∧ Disjoint 2 (annealFoot privLayout inpOK) := by
   decide
 
-/-- Refutation of `fresh_start` without `ClonePrivate` (finding D4: the multi-objective explorer's
-`DeepClone` copies the coolant pointer).  Two sequential runs (bound 1) of budget 2 sharing the
-template's coolant: the second run starts with two coolings already applied — temperature
+/-- Refutation of `fresh_start_anneal` without `ClonePrivate` (finding D4: the multi-objective
+explorer's `DeepClone` copied the coolant pointer).  Two sequential runs (bound 1) of budget 2 sharing
+the template's coolant: the second run starts with two coolings already applied — temperature
 `T₀·a²` instead of `T₀`. -/
 theorem shared_coolant_starts_cold :
-    ¬ ClonePrivate cfgShared ∧
-    (run cfgShared (init cfgShared cells0)
-      [.spawn, .clone 0, .step 0, .step 0, .release 0, .wgDone 0, .spawn, .clone 1]).map (fun s => s.obs 1)
-      = some (some (freshPriv 1, ⟨2⟩)) := by
+    ¬ Disjoint 2 (annealFoot coolShared inpOK) ∧
+    (run cfgCoolShared (init cfgCoolShared heap0)
+      [.spawn, .clone 0, .step 0, .step 0, .finish 0, .release 0, .wgDone 0, .spawn, .clone 1]).map
+        (fun s => (s.obs 1).map (fun o => o (coolShared.cool 1)))
+      = some (some 2) := by
+  decide
+
+/-- Refutation of "empty solution set" without `ClonePrivate` (the class of seed C08a: the clones
+reuse one archive storage).  Two concurrent runs; run 1 has been cloned (its archive emptied) and
+has not taken a single iteration yet, but its solution set already holds a member: run 0's. -/
+theorem shared_archive_starts_nonempty :
+    ¬ Disjoint 2 (annealFoot archShared inpOK) ∧
+    (run cfgArchShared (init cfgArchShared heap0) [.spawn, .spawn, .clone 0, .clone 1, .step 0]).map
+        (fun s => (s.phase 1, s.steps 1, s.heap (archShared.arch 1))) = some (.running, 0, 1) := by
+  decide
+
+/-- Refutation of "iteration 1" without `ClonePrivate`: an iteration counter shared with the
+template.  Two sequential runs of budget 2: the second run finds the counter at 2, is done at once
+and "completes" without a single iteration (its first iteration would have been numbered 3). -/
+theorem shared_counter_runs_nothing :
+    ¬ Disjoint 2 (annealFoot iterShared inpOK) ∧
+    (run cfgIterShared (init cfgIterShared heap0)
+      [.spawn, .clone 0, .step 0, .step 0, .finish 0, .release 0, .wgDone 0, .spawn, .clone 1, .finish 1]).map
+        (fun s => (s.phase 1, s.steps 1, (s.obs 1).map (fun o => o (iterShared.iter 1)))) = some (.saved, 0, some 2) := by
+  decide
+
+/-- A shared WRITTEN cell breaks `noninterference` (finding D28: with `CheckingLoopInvariant` every
+run writes `AnnealingInvariantObserver.previousObjectiveValue` on the shared notifier).  The clones
+are private, only the observer's cell is shared: `Disjoint` fails, and after both runs have started
+run 0 finds in that cell — one of ITS cells — run 1's objective value (20), where the run alone
+leaves its own (10). -/
+theorem shared_observer_cell_breaks_noninterference :
+    ¬ Disjoint 2 (annealFoot privLayout inpInv) ∧ obsState ∈ (annealFoot privLayout inpInv).W 0 ∧
+    obsState ∉ (annealFoot privLayout inpInv).locked ∧
+    (run cfgInv (init cfgInv heap0) [.spawn, .spawn, .clone 0, .clone 1]).map
+        (fun s => (s.phase 0, s.err 0, s.steps 0, s.heap obsState)) = some (.running, false, 0, 20) ∧
+    (annealProg privLayout inpInv 0).clone heap0 obsState = 10 := by
+  decide
+
+/-- What the lock is for.  The saver's section "decompress the run's result into the shared model,
+then build the solution from the shared model" as TWO events (= executed without
+`decompressionMutex`): program `i` copies its result (cell `10 + i`) into the shared cell 5 in its
+first step and writes its output (cell `30 + i`) from cell 5 in its second step. -/
+def unlockedSaver (i : Nat) : Prog Nat where
+  clone := fun h => h
+  cloneFails := fun _ => false
+  step := fun h =>
+    if h (20 + i) = 0 then (h.set 5 (h (10 + i))).set (20 + i) 1
+    else (h.set (30 + i) (h 5)).set (20 + i) 2
+  done := fun h => decide (2 ≤ h (20 + i))
+  fails := fun _ => false
+  finish := fun h => h
+  finishFails := fun _ => false
+
+def cfgUnlocked : Config Nat := { runs := 2, bound := 2, isolate := true, prog := unlockedSaver }
+
+/-- Without the lock the two halves of the section interleave: run 0 saves run 1's result (222)
+where the run alone saves its own (111).  With the lock the section is one event (`finish` of
+`annealProg`), the shared cell is written before it is read, and `noninterference` applies (the cell
+is in `locked`, in no read set: `annealCfg_private`). -/
+theorem unlocked_saver_mixes_results :
+    (run cfgUnlocked (init cfgUnlocked { cell := fun a => if a = 10 then 111 else if a = 11 then 222 else 0 })
+      [.spawn, .spawn, .clone 0, .clone 1, .step 0, .step 1, .step 0, .step 1]).map
+        (fun s => (s.heap 30, s.heap 31)) = some (222, 222) ∧
+    (match solo (unlockedSaver 0) 5 { cell := fun a => if a = 10 then 111 else if a = 11 then 222 else 0 } with
+      | .finished h => h 30 | _ => 0) = 111 := by
   decide
 
 /-- Refutation of the full `today_all_finish` (finding D26): bare goroutines, two concurrent runs,
@@ -356,25 +562,43 @@ run 0 panics in its first iteration.  The process is dead; by `crashed_stuck` no
 any more, yet `Run()` has not returned and run 1 — whose solo execution finishes — is still
 running and never delivers its result. -/
 theorem bare_goroutine_panic_loses_siblings :
-    ClonePrivate cfgBare ∧
-    (run cfgBare (init cfgBare cells0) [.spawn, .spawn, .clone 0, .clone 1, .step 0]).map
-        (fun s => (s.crashed, s.returned, s.phase 1, (result cfgBare s 1).isSome)) = some (true, false, .running, false) ∧
-    solo cfgBare.toWorker cfgBare.shared 5 (freshPriv 1, ⟨0⟩) =
-      .finished ({ freshPriv 1 with iteration := 3, archive := 2 }, ⟨2⟩) := by
+    Disjoint 2 (annealFoot privLayout inpFault) ∧
+    (run cfgBare (init cfgBare heap0) [.spawn, .spawn, .clone 0, .clone 1, .step 0]).map
+        (fun s => (s.crashed, s.returned, s.phase 1, (result s 1).isSome)) = some (true, false, .running, false) ∧
+    (match solo (cfgBare.prog 1) 5 heap0 with
+      | .finished h => h (privLayout.out 1) | _ => 0) = 2402 := by
   decide
 
 /-- The same fault with isolation (`failure_isolated` is not vacuous): the scheduler completes,
-`Run()` returns, run 1 delivers its solo result, run 0 is the one reported as failed. -/
+`Run()` returns, run 1 delivers its solo result, run 0 is the one reported as failed.  Likewise for
+a panic in the clone phase and for a panic in a FinishedAnnealing observer. -/
 example :
-    (fun s : State RunPriv Coolant => (s.crashed, s.returned, s.phase 0, s.phase 1))
-        (drive cfgIso 100 (init cfgIso cells0) []).1 = (false, true, .finished, .finished) ∧
-    (fun s : State RunPriv Coolant => (result cfgIso s 1, result cfgIso s 0, failedRuns cfgIso s))
-        (drive cfgIso 100 (init cfgIso cells0) []).1 =
-      (some ({ freshPriv 1 with iteration := 3, archive := 2 }, ⟨2⟩), none, [0]) := by
+    (fun s : State Nat => (s.crashed, s.returned, s.phase 0, s.phase 1)) (drive cfgIso 100 (init cfgIso heap0) []).1
+      = (false, true, .finished, .finished) ∧
+    (fun s : State Nat => ((result s 1).map (fun h => h (privLayout.out 1)), (result s 0).isSome, failedRuns cfgIso s))
+      (drive cfgIso 100 (init cfgIso heap0) []).1 = (some 2402, false, [0]) ∧
+    (fun s : State Nat => (s.crashed, s.returned, s.phase 0, s.phase 1)) (drive cfgIsoClone 100 (init cfgIsoClone heap0) []).1
+      = (false, true, .finished, .finished) ∧
+    (fun s : State Nat => ((result s 1).map (fun h => h (privLayout.out 1)), (s.obs 0).isSome, failedRuns cfgIsoClone s))
+      (drive cfgIsoClone 100 (init cfgIsoClone heap0) []).1 = (some 2402, false, [0]) ∧
+    (fun s : State Nat => (s.crashed, s.returned, s.phase 0, s.phase 1)) (drive cfgIsoFinish 100 (init cfgIsoFinish heap0) []).1
+      = (false, true, .finished, .finished) ∧
+    (fun s : State Nat => ((result s 1).map (fun h => h (privLayout.out 1)), s.steps 0, s.heap (privLayout.out 0),
+        failedRuns cfgIsoFinish s))
+      (drive cfgIsoFinish 100 (init cfgIsoFinish heap0) []).1 = (some 2402, 2, 0, [0]) := by
+  decide
+
+/-- data that cannot be loaded: both runs stop in their clone phase, `Run()` returns naming both
+    (`unloadable_data_fails_every_run` is not vacuous) -/
+example :
+    (fun s : State Nat => (s.returned, s.steps 0, s.steps 1, (s.obs 0).isSome, (s.obs 1).isSome,
+        failedRuns (annealCfg inpOK 2 2 true privLayout) s))
+      (drive (annealCfg inpOK 2 2 true privLayout) 100 (init (annealCfg inpOK 2 2 true privLayout) { cell := fun _ => 0 }) []).1
+      = (true, 0, 0, false, false, [0, 1]) := by
   decide
 
 /-- a bound of zero (which `WithMaximumConcurrentRuns` refuses) deadlocks at once: `0 < bound` is needed -/
-example : ∀ e, exec (annealCfg inpOK 1 0 true true) (init (annealCfg inpOK 1 0 true true) cells0) e = none := by
+example : ∀ e, exec (annealCfg inpOK 1 0 true privLayout) (init (annealCfg inpOK 1 0 true privLayout) heap0) e = none := by
   intro e; cases e <;> simp [exec, init, annealCfg]
 
 end examples
